@@ -73,6 +73,8 @@ def witnesses():
                                   WF + 'callee.yml': CALLEE})
     add('runner-label-conflict-partner', {WF + 'w.yml': HEAD + 'jobs:\n  a:\n    runs-on: [linux, ubuntu-22.04, windows-latest]\n    steps:\n      - run: echo\n'})
     add('runner-label-conflict-partner-2', {WF + 'w.yml': HEAD + 'jobs:\n  a:\n    runs-on: [macos, macos-14, macos-13, ubuntu-latest]\n    steps:\n      - run: echo\n'})
+    add('runner-label-conflict-multiline', {WF + 'w.yml': HEAD + 'jobs:\n  a:\n    runs-on: [self-hosted, linux,\n      ubuntu-22.04, windows-latest]\n    steps:\n      - run: echo\n'})
+    add('runner-label-conflict-multiline-2', {WF + 'w.yml': HEAD + 'jobs:\n  a:\n    runs-on:\n      - macos\n      -   macos-14\n      -       macos-13\n      - ubuntu-latest\n    steps:\n      - run: echo\n'})
     add('needs-two-cycles', {WF + 'w.yml': wf(job('a', ['run: echo'], '    needs: [b]\n') + job('b', ['run: echo'], '    needs: [a]\n') +
                                                job('c', ['run: echo'], '    needs: [d]\n') + job('d', ['run: echo'], '    needs: [c]\n') +
                                                job('e', ['run: echo'], '    needs: [f]\n') + job('f', ['run: echo'], '    needs: [e]\n'))})
@@ -99,6 +101,15 @@ def witnesses():
     add('multi-file-order', ok3, [WF + 'c.yml', WF + 'a.yml', WF + 'b.yml'])
     callee2 = ('on:\n  workflow_call:\n    inputs:\n      x:\n        type: string\n        required: true\n        default: null\n'
                'jobs:\n  x:\n    runs-on: ubuntu-latest\n    steps:\n      - run: echo\n')
+    callee3 = ('on:\n  workflow_call:\n    inputs:\n' + ''.join('      %s:\n        type: string\n        required: true\n%s' % (n, d) for n, d in
+               [('nodef', ''), ('nulldef', '        default: null\n'), ('emptydef', "        default: ''\n"), ('baredef', '        default:\n'),
+                ('tildedef', '        default: ~\n'), ('valdef', '        default: v\n'), ('exprreq', '')]).replace("      exprreq:\n        type: string\n        required: true\n", "      exprreq:\n        type: string\n        required: ${{ github.event_name == 'push' }}\n") +
+               '    secrets:\n      s1:\n        required: true\n      s2:\n        required: ${{ github.event_name == \'push\' }}\n      s3:\n'
+               'jobs:\n  x:\n    runs-on: ubuntu-latest\n    steps:\n      - run: echo\n')
+    add('multi-file-callee-declaration-variants', {WF + 'w.yml': HEAD + 'jobs:\n  c:\n    uses: ./.github/workflows/callee.yml\n', WF + 'callee.yml': callee3},
+        [WF + 'w.yml', WF + 'callee.yml'])
+    add('multi-file-callee-declaration-variants-callee-first', {WF + 'w.yml': HEAD + 'jobs:\n  c:\n    uses: ./.github/workflows/callee.yml\n', WF + 'callee.yml': callee3},
+        [WF + 'callee.yml', WF + 'w.yml'])
     add('multi-file-callee-in-run', {WF + 'w.yml': HEAD + 'jobs:\n  c:\n    uses: ./.github/workflows/callee.yml\n', WF + 'callee.yml': callee2},
         [WF + 'w.yml', WF + 'callee.yml'])
     return w
@@ -132,6 +143,20 @@ def run(ck, tier):
     ck.add_tlc('Emission: every order of every map-sourced site; characterisation of deterministic output', r)
     if r.violated:
         raise Inconclusive('Emission.tla violates %s (model level)' % r.violated)
+    rp = vplib.run_tlc('PosOrder', 'PosOrder.cfg', dump='vectors', timeout=600)
+    ck.add_tlc('PosOrder: lexicographic order of positions is a strict total order (grid 4x4)', rp)
+    if rp.violated:
+        raise Inconclusive('PosOrder.tla violates %s' % rp.violated)
+    pv = vplib.read_dump_json(os.path.join(rp.dir, 'vectors.dump'))
+    vplib.write_jsonl(os.path.join(sd, 'pos.jsonl'), [{'a': v['a'], 'b': v['b']} for v in pv])
+    vplib.run_harness(['pos-order', os.path.join(sd, 'pos.jsonl'), os.path.join(sd, 'pos-out.jsonl')])
+    for v, o in zip(pv, vplib.read_jsonl(os.path.join(sd, 'pos-out.jsonl'))):
+        if v['before'] != o['before']:
+            ck.violation('pos-order', 'Pos%s.IsBefore(Pos%s) = %s, lexicographic (line, col) order says %s: position order is not a '
+                         'strict total order, every smallest-position choice becomes iteration-order dependent'
+                         % (tuple(v['a']), tuple(v['b']), o['before'], v['before']), {'kind': 'pos-order', 'a': v['a'], 'b': v['b']})
+            break
+    ck.cov['evaluations'] += len(pv)
     ws = witnesses()
     reps = 64 if tier == 'quick' else 400
     cases = []
